@@ -143,7 +143,7 @@ def run(tier):
                                 {"kind": "read", "config": cfg, "opt": dopt, "input_hex": C.hexs(ddocs[i]), "observed": a[:400]})
         # trivia-only documents
         tdocs = [t for t in trivs if not t.startswith(b"#_")] + [b"".join(rng.choice(trivs) for _ in range(3)) for _ in range(100)] + [b"; no newline", b" ;x", b",", b""]
-        tdocs = [t for t in tdocs if t]
+        tdocs = [t for t in tdocs if t] + [b""]  # the empty document (passed as a NUL-terminated empty string) is trivia-only too
         for opt in (0, 1):
             out, cr = K.run_impl(cfg, K.read_lines(tdocs, opt))
             mo, _ = K.run_model(cfg, K.read_lines(tdocs, opt))
